@@ -98,7 +98,7 @@ def eval_cases(cases, tag):
 # and the queue-level clause of C20: the successful deliveries are those of an unlimited FIFO list driven by the same
 # client operations, a purge reports and removes everything, the length counter equals what the list holds, and a
 # final drain (flush, load, pop until nothing comes) delivers everything.  It does not use the model.
-def judge(c, drained=True):
+def judge(c, drained=None):
     """-> (deviation or None, triggers): deviation = (label index, text); triggers = set of known-finding triggers
     (F40 / F24a / F24b) observed on this trace before the deviation."""
     trig = set()
@@ -145,6 +145,8 @@ def judge(c, drained=True):
         if int(snap[3]) != len(spec):
             return (i, "queueLength is %s after %s, the queue holds %d (%s)" % (snap[3], l, len(spec), spec[:6])), trig
         prev = snap
+    if drained is None:
+        drained = ends_with_drain(c)
     if drained and spec:
         return (len(c.labels) - 1, "messages %s are never delivered although the run ends with a full drain" % spec[:6]), trig
     return None, trig
@@ -155,7 +157,13 @@ def deliveries(c):
 
 
 def ends_with_drain(c):
-    return len(c.labels) >= 2 and c.labels[-1] == "O" and c.obs[-1].startswith("-:") and c.labels[-2] in ("O", "L")
+    """the trace ends with a pop that found nothing although everything was flushed and the loader had its turn:
+    either the queue is not swapped at the end (no loader turn will ever load anything) or the last pop was
+    immediately preceded by Kp Kt L"""
+    if c.broken or not c.labels or c.labels[-1] != "O" or not c.obs[-1].startswith("-:"):
+        return False
+    swapped_end = c.obs[-1].split(":")[1].split(",")[0] == "1"
+    return (not swapped_end) or c.labels[-4:-1] == ["Kp", "Kt", "L"]
 
 
 # ------------------------------------------------------------------ shrinking
@@ -222,7 +230,7 @@ def confirm_findings(res, exe):
         script = [l.strip() for l in open(w) if l.strip() and not l.startswith("#")][0]
         sub = "replay-bunt" if e["id"] == "F23" else "replay"
         c = Case(vlib.harness(exe, [sub, script]).strip())
-        dev, trig = judge(c, drained=True)
+        dev, trig = judge(c)
         if dev is not None:
             confirmed[e["id"]] = c
             res.known_finding(e["id"], "%s [witness %s: %s]" % (e["what"], e["witness"], dev[1]))
@@ -269,7 +277,7 @@ def run(res):
     # judge every implementation trace
     unknown, known_dev, overflowed, hyp_and_overflow = [], {}, 0, 0
     for i, c in enumerate(cases):
-        dev, trig = judge(c, drained=True)
+        dev, trig = judge(c)
         ov = any(s[0] == "1" for s in c.snaps()) if not c.broken else False
         overflowed += ov
         if hyps[i] and ov:
@@ -335,10 +343,10 @@ def decide(res, pr, bad, cases, exe, unknown, group_diffs, hyps):
         i, dev = cand[0]
         c = cases[i]
         def still(cc):
-            d, t = judge(cc, drained=ends_with_drain(cc))
+            d, t = judge(cc)
             return d is not None and not t
         small = shrink(exe, c, still) if judge(c)[0] is not None else c
-        d2, _ = judge(small, drained=ends_with_drain(small))
+        d2, _ = judge(small)
         d2 = d2 or dev
         res.violation(dict(kind="queueswap-case", case=small.script(), implementation_trace=small.line, first_failing_label=d2[0],
                            observation=d2[1], broken=what, replay_cmd="harness/bin/queueswap replay '%s'" % small.script()),
@@ -359,7 +367,7 @@ def replay(path):
         raise vlib.Infra(err)
     c = Case(vlib.harness(exe, ["replay", r["case"]]).strip())
     print("implementation:", c.line)
-    dev, trig = judge(c, drained=ends_with_drain(c))
+    dev, trig = judge(c)
     print("property statement (unlimited FIFO list; queueLength):", "holds on this trace" if dev is None else "VIOLATED at label %d: %s" % dev,
           ("(known-finding triggers on this trace: %s)" % sorted(trig)) if trig else "")
     try:
